@@ -59,8 +59,9 @@ func paginateAll[T any, O any](w *World, what string, first common.InitialPagina
 			w.V("C21", "%s: next cursor does not decode: %v", what, err)
 		}
 		q = nq
-		if pages > 10000 {
+		if pages > 600 {
 			w.V("C21", "%s: pagination does not terminate", what)
+			return all, pages, nil // outside the focus of the running check: the walk is abandoned, not repeated for ever
 		}
 	}
 }
